@@ -250,12 +250,16 @@ func (p *Parser) led(tokenType tokType, node ASTNode) (ASTNode, error) {
 			if err != nil {
 				return ASTNode{}, err
 			}
-			if p.current() == tComma {
-				if err := p.match(tComma); err != nil {
-					return ASTNode{}, err
-				}
-			}
 			args = append(args, expression)
+			if p.current() == tRparen {
+				break
+			}
+			if err := p.match(tComma); err != nil {
+				return ASTNode{}, err
+			}
+			if p.current() == tRparen {
+				return ASTNode{}, p.syntaxError("Expected an argument after the comma, received: " + p.current().String())
+			}
 		}
 		if err := p.match(tRparen); err != nil {
 			return ASTNode{}, err
